@@ -187,6 +187,17 @@ def whole_stock_cases(chk):
                'solvent': 1, 'expect': 'feasible'}
         g.emit(op2, 'boundary:whole-stock')
         out.append(g)
+    # the most common request (mol/L, a volume) with a container as solvent that already holds some of the solute
+    for i, (conc, total) in enumerate([({'s': 'M', 'v': '0.5'}, q('50', 'm', 'L')), ({'v': '0.3', 'np': '', 'nb': 'mol', 'dp': '', 'db': 'L'}, q('0.02', '', 'L'))]):
+        g = gen.Gen(random.Random(chk.seed * 100003 + 126000 + i), nsubs=9)
+        op = {'op': 'newc', 'out': g.fresh(), 'name': g.name(), 'init': [(4, q('5.844', '', 'g')), (1, q('94.156', 'm', 'L'))]}       # 1 M
+        ops = {'op': 'newc', 'out': g.fresh(), 'name': g.name(), 'init': [(1, q('200', 'm', 'L')), (4, q('1.1688', '', 'g'))]}       # about 0.1 M saline
+        if not (g.emit(op, 'solvent-holds-solute:stock')['ok'] and g.emit(ops, 'solvent-holds-solute:solvent')['ok']):
+            continue
+        op2 = {'op': 'solfromc', 'src': op['out'], 'solute': 4, 'c': conc, 'q': total, 'name': g.name(), 'osrc': g.fresh(), 'out': g.fresh(),
+               'solventv': ops['out'], 'osolv': g.fresh()}
+        g.emit(op2, 'solfromc:solvent-holds-solute')
+        out.append(g)
     return out
 
 
